@@ -1279,7 +1279,11 @@ func walkObjectValues(v reflect.Value, fn func(reflect.Value)) {
 		}
 	case jtypes.IsStruct(v):
 		for i, N := 0, v.NumField(); i < N; i++ {
-			fn(v.Field(i))
+			// Unexported fields are not data (and reflect
+			// panics when their values are used as such).
+			if f := v.Field(i); f.CanInterface() {
+				fn(f)
+			}
 		}
 	}
 }
